@@ -265,7 +265,7 @@ pub fn run(ctx: &Ctx, rep: &mut Report) {
     rep.prop(
         "volumes",
         "proptest: volume = 24-byte header + LDM records (bzip2, split at arbitrary message boundaries, empty records allowed) of a message stream whose type-31 radials follow an elevation pattern {single, single radial, ascending, SAILS-like revisits, random incl. 0/255, final run of one, a 720-radial sweep}, each radial with a random block subset and 0..64-gate 8/16-bit moments, status/VCP/other frames interleaved anywhere; oracle = spec-derived radial list, run-length sweeps, first VOL's VCP; non-trivial = >= 2 sweeps or a final run of one or >= 2 records or interleaved metadata",
-        ctx.tier.pick(3_000, 300_000),
+        ctx.tier.pick(12_000, 300_000),
         move || volume_strategy(opts, false),
         classify,
         check_volume,
@@ -273,12 +273,12 @@ pub fn run(ctx: &Ctx, rep: &mut Report) {
     rep.prop(
         "volumes-without-vol",
         "proptest: as above but no radial carries a VOL block: scan() must report MissingCoveragePattern",
-        ctx.tier.pick(200, 10_000),
+        ctx.tier.pick(1_000, 10_000),
         move || volume_strategy(opts, true),
         classify,
         check_volume,
     );
-    let n_full = ctx.tier.pick(1usize, 40usize);
+    let n_full = ctx.tier.pick(2usize, 40usize);
     for i in 0..n_full {
         let c = full_size_case(ctx.seed, i);
         let r = crate::runner::guard(|| check_volume(&c)).unwrap_or_else(|p| Err(Fail::new("panic:oracle-or-code", p)));
